@@ -63,6 +63,41 @@ CHECKS = {
         'note': 'trusted: vf/props/c17.py oracles; SEARCH start asserted for 1..len, text form of numbers only for ints / short decimals',
         'technique': 'Hypothesis structured generation vs substring-algebra reference + round-trip identity',
     },
+    'C02': {
+        'text': 'Hypothesis workbooks of 2-4 coordinate-coded sheets (titles from identifier / unicode / cell-like / spaces / punctuation / leading-digit / ! / apostrophe classes) x reference forms ($-marks on any component; no / unquoted / quoted prefix; cell, column range, row range, rectangle, whole column(s); far cells up to XFD / row 99 999) x positions (bare, SUM/COUNT/MAX, INDEX, VLOOKUP, MATCH, SUMIF(S)/COUNTIFS/AVERAGEIFS, COLUMN), whole-file and entry-point translation; oracle = the generator\'s own coordinate map; a missing title must be rejected',
+        'note': 'trusted: the coordinate code 1_000_003*sheet+1_009*col+row and vf/props/c02.py fold; reversed areas and whole-row references are not generated; nesting of a bare area result not asserted',
+        'technique': 'Hypothesis structured generation vs coordinate-map reference model',
+    },
+    'C03': {
+        'text': 'Hypothesis dependency graphs (3-25 formula cells over 1-3 sheets; edges through cells, overlapping ranges, whole columns, cross-sheet references, shared sub-expressions, IF branches, INDEX) with every cell taken as entry in turn: members of the entry-point class vs the generator\'s closure, entry-point value == whole-file value == reference evaluator; cyclic variants (self loop, 2-cycle, long cycle, through a range, through an untaken IF branch) must raise E2PyclParserException whole-file and for every entry on or upstream of the cycle, and entries that avoid the cycle must still translate',
+        'note': 'trusted: generator graph + vf/ref/formula.py; formulas are total numeric expressions; blank cells inside a referenced area need not be members',
+        'technique': 'Hypothesis graph generation x exhaustive entry choice; differential (slice vs whole vs reference) + closure model',
+    },
+    'C04': {
+        'text': 'Hypothesis RuleBasedStateMachine: generated workbook (constants, formulas incl. an erroring cell and its dependants, blanks, 1-2 sheets) + histories of <= 12 set_cells batches / queries (same cell twice in a batch or again later, formula cells, blanks, cells beyond the used range, other sheets, A1/numeric/mixed addressing, int/float/text/bool/date values); at every query every cell is compared with a fresh translation of the edited workbook; histories with repeated writes are replayed in child processes under other PYTHONHASHSEED values',
+        'note': 'trusted: dict model cell -> last value, openpyxl writer; override values never start with "=", are not None/empty text/integral floats; whole-column references not generated',
+        'technique': 'Hypothesis stateful (model-based) testing; metamorphic oracle override == edit-and-retranslate; hash-seed matrix',
+    },
+    'C08': {
+        'text': 'Hypothesis RuleBasedStateMachine: generated workbook (total formulas, 1-3 sheets, sparse layout, optional override set) + histories of <= 30 get_cell / get_cells / get_sheet calls with numeric, A1-style, title-or-index addressing, fresh and re-used Cell objects, a second Executor on the same class queried in between; every returned value vs a value table computed once with one fresh Executor per cell and cross-checked against the reference evaluator; grid shape = used range extended by overrides; sheet sizes and overrides unchanged by queries',
+        'note': 'trusted: value table + vf/ref/formula.py; formulas from a total sub-grammar; COLUMN over multi-column areas excluded',
+        'technique': 'Hypothesis stateful (model-based) testing vs value-table model; API/addressing metamorphic agreement',
+    },
+    'C09': {
+        'text': '(a) Hypothesis RuleBasedStateMachine on one Parser over a pool of workbooks (differing in one constant, permuted sheets, a suspicious cell, a malformed formula): set path / set-replace-clear entry / enable-disable safety / get / write, each get/write compared with a fresh Parser holding the same final settings, repeated gets identical, written file == returned text; (b) sha256 of the text for pool workbook x entry across child processes under several PYTHONHASHSEED values, cold and after other translations; (c) cold child processes with 8 barrier-released threads (switch interval 1 us) translating concurrently',
+        'note': 'trusted: a fresh Parser as reference for a cached one (the relation the property states); threads only sample interleavings - the harness does not own the scheduler',
+        'technique': 'Hypothesis stateful testing vs fresh-instance reference; process / hash-seed / thread differential on sha256',
+    },
+    'C18': {
+        'text': 'Hypothesis workbooks of 1-5 sheets (some empty), sparse cells with empty rows/columns inside the used range, first used cell away from A1, far cells (row <= 3000, column <= 400), values int / float / bool / text (printable + unicode) / date / date-time / formulas / ArrayFormula; every planted coordinate, its eight neighbours, the used-range corners and sampled blanks queried through Executor.get_cell on the class object and on the file-loaded class; get_titles / get_sheets_size vs the model',
+        'note': 'trusted: generator cell map normalised by xlsx storage rules, cross-checked against openpyxl\'s ordinary reader (disagreement = harness error); values restricted to what survives openpyxl itself',
+        'technique': 'Hypothesis structured generation vs cell-map reference model (round trip through xlsx)',
+    },
+    'C19': {
+        'text': 'Hypothesis workbooks of 1-3 sheets with 0-6 planted suspicious cells (lower/mixed-case identifier immediately followed by a parenthesised list; as constants and inside formulas) and 0-10 innocent cells (upper-case Excel calls, parentheses without identifier, "print (1)", numbers, dates) at arbitrary (sheet, column, row), translated with the safety check on and off: rejected iff something is planted, listing is a bijection with the planted cells at their true title / A1 address with their fragments, no rejection when disabled',
+        'note': 'trusted: the planted positions and an own call-syntax scanner; cells mixing lower- and upper-case calls and fragments spanning newlines are not planted; exact key format not asserted',
+        'technique': 'Hypothesis structured generation vs planted-positions oracle',
+    },
 }
 ALL = ['C%02d' % i for i in range(1, 21)]
 for p in ALL:
